@@ -157,9 +157,10 @@ Definition sec_set_notl_zero (s : sec) : sec :=
 (* <class>.update, dispatching on the security class as the method resolution order does *)
 (* what the subclasses do after SecurityBase.update returns *)
 Definition sec_tail (inow : nat) (s : sec) : result sec :=
-  let s := if class_fi_notl (s_class s) then sec_set_notl_pos inow s else s in
-  s <- (if class_coupon (s_class s) then sec_update_coupon inow s else Ok s) ;;
-  Ok (if class_hedge (s_class s) then sec_set_notl_zero s else s).
+  let c := s_class s in      (* the class is static *)
+  let s := if class_fi_notl c then sec_set_notl_pos inow s else s in
+  s <- (if class_coupon c then sec_update_coupon inow s else Ok s) ;;
+  Ok (if class_hedge c then sec_set_notl_zero s else s).
 
 Definition sec_update (date : option nat) (inow : nat) (s : sec) : result sec :=
   if class_coupon (s_class s) && match s_coupons s with None => true | _ => false end
